@@ -2,13 +2,19 @@
    0 = join, 1 = join_template (same state machine, one oracle bit pair per template),
    2 = k8s MultilineAction, 3 = k8s, flush-on-time-out clause (byte conservation);
    4, 5 = which 2 run by the harness with allowed_pod_labels / allowed_node_labels set (label fields
-   are not modelled: same sub-model, the harness checks the label fields itself). *)
-From Verif Require Import Base.Sx Base.GoSem Model.Join Model.K8sMultiline.
+   are not modelled: same sub-model, the harness checks the label fields itself);
+   7, 8 = which 2 with the pipeline setting source_name_meta_field set (7: a field of the event, 8: an absent one; the
+   label of the max-event-size metric is checked by the harness);
+   6 = the real join / join_template plugin inside a real pipeline (Model/C15Pipe.v);
+   9 = k8s, sequences with time-outs judged by k_spec_t (after a time-out the action starts afresh). *)
+From Verif Require Import Base.Sx Base.GoSem Model.Join Model.K8sMultiline Model.C15Pipe.
 
 Definition c15_entry (which : Z) (case obs : sx) : verdict :=
   match which with
   | 0 | 1 => c15_join_run case obs
-  | 2 | 4 | 5 => c15_k8s_run case obs
+  | 2 | 4 | 5 | 7 | 8 => c15_k8s_run case obs
+  | 6 => c15_pj_run case obs
+  | 9 => c15_k8s_fresh_run case obs
   | 3 => c15_k8s_flush_run case obs
   | _ => BadCase
   end.
